@@ -250,8 +250,21 @@ def _draw_opts(rng, doc, allow_detect=True):
     return {"reset_index": reset, "encoding": enc, "kind": kind, "entry": entry}
 
 
+_FLAG_SPELLINGS = [0]
+
+
+def _flag(v: bool):
+    """The same truth value as callers hold it: a Python bool, a numpy bool (the result of a
+    numpy comparison or np.any) or an int."""
+    _FLAG_SPELLINGS[0] += 1
+    k = _FLAG_SPELLINGS[0] % 4
+    return [bool(v), np.bool_(v), int(v), bool(v)][k]
+
+
 def _opts_kw(o, doc):
-    kw = {"reset_index": o["reset_index"]}
+    kw = {"reset_index": _flag(o["reset_index"])}
+    if _FLAG_SPELLINGS[0] % 3 == 0:
+        kw["sort_nodes"] = _flag(False)
     if o["kind"] != "text":
         kw["encoding"] = o["encoding"]
     if doc["ask"]:
@@ -422,7 +435,9 @@ def check_sort(ctx, case, tmp):
         ctx.count("ids_beyond_2_53")
     text = render(doc)
     src = _source(o["kind"], text, "utf-8", tmp)
-    kw = {"sort_nodes": True}
+    kw = {"sort_nodes": _flag(True)}
+    if _FLAG_SPELLINGS[0] % 2:
+        kw["reset_index"] = _flag(bool(_FLAG_SPELLINGS[0] % 3))  # irrelevant once nodes are sorted
     if doc["ask"]:
         kw["extra_cols"] = [f"e{k}" for k in range(doc["ask"])]
     ctx.count("src_" + o["kind"])
@@ -606,6 +621,7 @@ def run(ctx):
     ctx.count("tap_parse_swc_raise", rt.raises["parse_swc"])
     ctx.count("tap_parse_swc_return", rt.returns["parse_swc"])
     exits = rt.records["exit"]
+    ctx.count("option_flags_spelled", _FLAG_SPELLINGS[0])
     ctx.count("tap_exit_calls", len(exits))
     ctx.count("tap_exit_with_exception", sum(1 for p, r in exits if p))
     swallowed = sum(1 for p, r in exits if p and r)
